@@ -3331,6 +3331,8 @@ impl Connection {
                 sent.non_retransmits = true;
             } else {
                 self.verif_inject[space_id as usize].push_front(bytes);
+                // more injected frames are waiting: make sure another packet follows
+                space.ping_pending = true;
                 break;
             }
         }
